@@ -231,6 +231,12 @@ func TestReqSuite(t *testing.T) {
 		RunBuffer(t, 0, seed, n, rec, scratch)
 	case "faults":
 		RunFaults(t, 0, seed, n, rec, scratch)
+	case "accesslog":
+		cert, key, err := writeTestCert(scratch)
+		if err != nil {
+			t.Fatal(err)
+		}
+		RunAccessLog(t, 0, seed, n, rec, scratch, cert, key)
 	default:
 		t.Fatalf("unknown suite %q", suite)
 	}
